@@ -102,7 +102,7 @@ PROPS["C14"] = {
 
 PROPS["C16"] = {
     "modules": ["CC.Props.C16", "CC.Props.C19Conc"], "campaigns": [hist("C16", BOTH), hist("C16h", ONE)], "quick_configs": ONE, "tables": {"locks": "supporting"},
-    "level_text": "PARTIAL. Lean theorems over the model with the CSPRNG idealised as a counter of fresh tokens: the seed of every encapsulation, the AEAD nonce of every PKE ciphertext and of every encrypted metadata, the markers of every user id and the secret of every rekey are draws of their own and the counter only moves forward, so values of different calls differ for any history; the metadata key differs from the returned secret. The part a model cannot exhibit (weak or mis-seeded generator, cloned state, entropy failure) is only supported by a long run of identical calls across threads and instances whose extracted tags, traps, masked seeds, ciphertexts, nonces, ids and public values must be pairwise distinct; and a history campaign (C16h: rotations, disables, updates, prunes, re-derivations of the public key, store / load) with the oracle that a public value once replaced or withdrawn is never published again, each line also compared with the model. Across threads (CC.Props.C19Conc): with a draw modelled as a read-modify-write of the shared generator state, for any threads whose accesses follow the guard discipline and any schedule the blocks of tokens handed out never overlap and no update is lost (draws_disjoint, counter_exact), with converse witnesses for an access outside the discipline (snapshot_breaks, unlocked_breaks)",
+    "level_text": "PARTIAL. Lean theorems over the model with the CSPRNG idealised as a counter of fresh tokens: the seed of every encapsulation, the AEAD nonce of every PKE ciphertext and of every encrypted metadata, the markers of every user id and the secret of every rekey are draws of their own and the counter only moves forward, so values of different calls differ for any history; the metadata key differs from the returned secret; over every history: whatever any reachable world publishes lies below the generator's counter, the counter only moves forward, so the value a rekey makes the newest secret of a right differs from every value published at any earlier moment (rekey_never_republishes). The part a model cannot exhibit (weak or mis-seeded generator, cloned state, entropy failure) is only supported by a long run of identical calls across threads and instances whose extracted tags, traps, masked seeds, ciphertexts, nonces, ids and public values must be pairwise distinct; and a history campaign (C16h: rotations, disables, updates, prunes, re-derivations of the public key, store / load) with the oracle that a public value once replaced or withdrawn is never published again, each line also compared with the model. Across threads (CC.Props.C19Conc): with a draw modelled as a read-modify-write of the shared generator state, for any threads whose accesses follow the guard discipline and any schedule the blocks of tokens handed out never overlap and no update is lost (draws_disjoint, counter_exact), with converse witnesses for an access outside the discipline (snapshot_breaks, unlocked_breaks)",
     "level_note": "CsRng idealised: every draw is a fresh atom; hash / KDF outputs injective in their inputs; the statistical run is support, not proof",
 }
 PROPS["C19"] = {
